@@ -26,6 +26,21 @@ from c01 import parse_reply, norm
 warnings.filterwarnings('ignore')
 
 
+class hard_time_limit(common.time_limit):
+    """like common.time_limit, but the alarm re-arms itself: Lcapy has bare `except:` clauses that swallow the first
+    TimeLimit, after which the computation would run unbounded"""
+
+    def __enter__(self):
+        import signal
+
+        def handler(signum, frame):
+            signal.alarm(1)
+            raise common.TimeLimit('time limit %ds' % self.seconds)
+        self.old = signal.signal(signal.SIGALRM, handler)
+        signal.alarm(self.seconds)
+        return self
+
+
 def gtok(v):
     return fstr(v[0]) + ((',' + fstr(v[1])) if v[1] != 0 else '')
 
@@ -159,7 +174,8 @@ def run(chk, replay=None):
                     b = Fraction(rng.randint(1, 6), rng.randint(1, 3)) * rng.choice([1, -1])
                     ll = '%s %s %s {(%s)*cos((%s)*t) + (%s)*sin((%s)*t)}' % (tk[0], tk[1], tk[2], a, w, b, w)
                     tk2 = ml.split()
-                    tk2[tk2.index('ac') + 1] = '%s,%s' % (fstr(a), fstr(-b))
+                    # (the generator may have given the source a phase token after the amplitude: the t-domain form replaces both)
+                    tk2 = tk2[:tk2.index('ac') + 1] + ['%s,%s' % (fstr(a), fstr(-b))]
                     ml = ' '.join(tk2)
                     tdom.add(tk[0])
             lines.append(ml)
@@ -244,15 +260,28 @@ def run(chk, replay=None):
             # (b) transfer function on the jw axis: Laplace-domain analysis with s-domain sources
             l2 = []
             amp = {}
+            skip_b = False
             for ml in lines:
                 tk = ml.split()
                 if tk[0] in dict(srcs) and 'ac' in tk:
                     amp[tk[0]] = tk[tk.index('ac') + 1]
+                    # `ac V phi` with a quarter-turn phase (gen_netlist): the complex amplitude V e^{j phi}
+                    ph_ = tk[tk.index('ac') + 2] if len(tk) > tk.index('ac') + 2 else '0'
+                    fac = {'0': None, 'pi': '(-1)', '{pi/2}': 'j', '{-pi/2}': '(-j)'}.get(ph_, 'unsupported')
+                    if fac == 'unsupported':
+                        amp[tk[0]] = None
+                    elif fac is not None and ',' not in amp[tk[0]]:
+                        amp[tk[0]] = '(%s)*%s' % (amp[tk[0]].strip('{}'), fac)
             for ll in llines:
                 tk = ll.split()
                 if tk[0] in dict(srcs):
                     if dict(srcs)[tk[0]] == w:
-                        a_ = amp[tk[0]].strip('{}')
+                        if amp[tk[0]] is None:
+                            chk.count('oracle', 'transfer-on-jw:unsupported-phase-token')
+                            a_ = '0'
+                            skip_b = True
+                        else:
+                            a_ = amp[tk[0]].strip('{}')
                         if ',' in a_:
                             re_, im_ = a_.split(',')
                             a_ = '(%s) + (%s)*j' % (re_, im_)
@@ -262,6 +291,8 @@ def run(chk, replay=None):
                 else:
                     l2.append(ll)
             try:
+                if skip_b:
+                    raise KeyError('phase token')
                 c2 = lcapy.Circuit('\n'.join(l2))
                 jw = S.I * S.Rational(w.numerator, w.denominator)
                 from lcapy import s as ss
@@ -315,7 +346,7 @@ def run(chk, replay=None):
         if nontriv and ss_budget[0] > 0:
             ss_budget[0] -= 1
             try:
-                with common.time_limit(40 if quick else 90):
+                with hard_time_limit(40 if quick else 90):
                     rsub = {S.Symbol(n_): S.Rational(v_.numerator, v_.denominator) for n_, v_ in case['subs'].items()}
 
                     def tsub(e):
@@ -399,7 +430,7 @@ def run(chk, replay=None):
         chk.case(('ohm', tuple(net)), True)
         chk.count('ohm-across-frequencies', '%d frequencies' % len(ws))
         try:
-            with common.time_limit(60):
+            with hard_time_limit(60):
                 cct = lcapy.Circuit('\n'.join(net))
                 for nm in ('R1', 'C1', 'L1', 'R2'):
                     el = cct.elements[nm]
@@ -470,7 +501,7 @@ def run(chk, replay=None):
         chk.case(('conv-sum', form, a, b, w), True)
         chk.count('conversion', 'sum-form-%d' % form)
         try:
-            with common.time_limit(30):
+            with hard_time_limit(30):
                 p = lcapy.voltage(lcapy.expr(e_sym)).phasor()
                 val = p.sympy.subs({A_: A, B_: B})
                 g = common.gauss_rational(S.expand_complex(S.simplify(val)))
@@ -592,6 +623,10 @@ def run(chk, replay=None):
                 gbranch = 'y0' if php == 0 else ('x0' if php == S.pi / 2 else 'gen')
                 chk.count('conversion', 'acchecker-sum-branch-' + rep[0])
                 desc = str(e)
+                if want == (0, 0):
+                    # the two terms cancel altogether for these numbers (not for the symbols the code sees): no sinusoid left
+                    chk.count('conversion', 'acchecker-sum:degenerate-total-cancellation')
+                    continue
                 ok = got == want
                 # the branch itself is compared when the cancellation is structural (forms 1-3), i.e. the same for the
                 # symbolic expression the code sees and for the numbers the model sees
@@ -621,7 +656,7 @@ def run(chk, replay=None):
         chk.case(('polar', re_, im_, w), True)
         chk.count('conversion', 'magnitude-phase-rms')
         try:
-            with common.time_limit(30):
+            with hard_time_limit(30):
                 P = lcapy.phasor(S.Rational(re_.numerator, re_.denominator) + S.Rational(im_.numerator, im_.denominator) * S.I,
                                  omega=S.Rational(w.numerator, w.denominator))
                 M, PH, RM = P.magnitude.sympy, P.phase.sympy, P.rms().sympy
@@ -679,7 +714,7 @@ def run(chk, replay=None):
         w = Fraction(rng.randint(1, 9), rng.randint(1, 3))
         W = S.Rational(w.numerator, w.denominator)
         try:
-            with common.time_limit(30):
+            with hard_time_limit(30):
                 net, toks = imm_tree(2)
                 if toks[0] not in 'SP':
                     continue
@@ -748,7 +783,7 @@ def run(chk, replay=None):
             chk.coverage['correspondence']['disagreements'] += 1
             disagreements.append({'netlist': dc_l, 'model dc': r_dc[:80], 'model ac 0': r_ac[:80]})
         try:
-            with common.time_limit(60):
+            with hard_time_limit(60):
                 c_dc = lcapy.Circuit('\n'.join(dc_l))
                 c_ac = lcapy.Circuit('\n'.join(ac_l))
                 bad = None
